@@ -18,6 +18,7 @@ From Coq Require Import ZArith List Bool.
 From V Require Import Base.Int Base.IO Model.TzParser Model.TzRule Model.TzLookup.
 From V Require Import Spec.TzWriter.
 From V Require Import Proofs.TzCommon Proofs.TzEval Proofs.TzGrammar Proofs.TzRoundtrip Proofs.TzWriterRoundtrip Proofs.TzWriterFull Proofs.TzWriterBytes Proofs.C16.
+From V Require Import Proofs.TzFooterSpec.
 Import ListNotations.
 Open Scope Z_scope.
 
@@ -169,9 +170,9 @@ Print Assumptions C16_writer_roundtrip_inhabited.
      DST flag and designation); vacuous when there is no transition.
    REMAINING GAP with respect to the property text: the writer is one conforming writer (every type
    has its own designation entry, names quoted, fixed-width numbers), not every conforming writer;
-   [footer_consistent] refers to the reader's rule evaluation ([C16_footer_consistent_fixed] states
-   it without that reference for rules without daylight saving time and zones without leap
-   records). *)
+   [footer_consistent] refers to the reader's rule evaluation; [C16_writer_roundtrip_v23_spec] below
+   replaces it by [footer_agrees], stated against the oracles of Spec/Zone.v, for the rules and
+   instants inside the premise of property C05. *)
 Theorem C16_writer_roundtrip_v1 : forall z std ut, zone_writable_full 4 z std ut -> extra_rule z = None ->
   parse (write_tzif_v1_full z std ut) = Val (Ok z).
 Proof. exact writer_roundtrip_v1_full. Qed.
@@ -209,6 +210,28 @@ Theorem C16_footer_consistent_fixed : forall z l, extra_rule z = Some (Fixed l) 
   footer_consistent z = true.
 Proof. exact footer_consistent_fixed. Qed.
 Print Assumptions C16_footer_consistent_fixed.
+(* The footer hypothesis against the oracles instead of the reader's code.  [footer_agrees z]: when
+   the zone has a rule and a last transition (time t, an i64 above i64::MIN), let u = t less the
+   correction of the last leap record before t ([corr_before], u an i64); then the last
+   transition's type is the rule's type at u: the type of a rule without daylight saving time, or,
+   for an alternating rule satisfying the premise of property C05 around u ([rule_hyps]: |u| <= 10^15,
+   offsets below a day, both switches more than a day inside the years y-2..y+1 and in the same
+   order in y-1 and y), the daylight type exactly when the calendar oracle [rule_is_dst] says so
+   (Spec/Zone.v; tied to AlternateTime::find_local_time_type by C05_rule_offset_spec). *)
+Theorem C16_footer_agrees_consistent : forall z, leaps_spaced (leap_seconds z) ->
+  zlen (leap_seconds z) <= 4294967295 -> footer_agrees z -> footer_consistent z = true.
+Proof. exact footer_agrees_consistent. Qed.
+Print Assumptions C16_footer_agrees_consistent.
+Theorem C16_writer_roundtrip_v23_spec : forall ver z32 std32 ut32 z std ut,
+  (ver = 50 \/ ver = 51) -> block_layout 4 z32 std32 ut32 -> zone_writable_full 8 z std ut ->
+  match extra_rule z with Some r => rule_printable r (footer_ext ver) | None => True end ->
+  footer_agrees z ->
+  parse (write_tzif_v23_full ver z32 std32 ut32 z std ut) = Val (Ok z).
+Proof. exact writer_roundtrip_v23_spec. Qed.
+Print Assumptions C16_writer_roundtrip_v23_spec.
+Example C16_footer_agrees_inhabited : footer_agrees example_berlin.
+Proof. exact example_berlin_agrees. Qed.
+Print Assumptions C16_footer_agrees_inhabited.
 (* inhabited: a version-1 zone with leap records and one indicator array; a Berlin-like zone in
    leap-second time with both arrays and the footer <CET>-01:00:00<CEST>-02:00:00,M03.5.0/02:00:00,M10.5.0/03:00:00
    (version 2 and version 3), consistent with its last transition; the admissible first blocks *)
